@@ -432,7 +432,9 @@ def unpack_any(vc):
         if o == 3:
             saved["outcome"], saved["key"] = "nokey", None
             return blk, None
-        saved["outcome"], saved["key"] = "key", vc.fresh_bytes("sk", 16)
+        # the key a block unwraps to is whatever its payload holds: any length, the empty string included (a crafted
+        # customer-key block) - "is not None", not truthiness, decides whether a block carried a key
+        saved["outcome"], saved["key"] = "key", vc.fresh_bytes("sk", vc.fresh_int("sklen", 0, 32))
         return blk, saved["key"]
 
     class Cls:
@@ -476,7 +478,8 @@ def unpack_any(vc):
                         if isinstance(last, M.UnknownAuthBlock) else False))
         return out
 
-    vc.loop(MOD, "Bec2File.unpack_auth_blocks", 0, ghost_init=dict(ghave=0, gkey=bytes(16)), ghost_next=nxt,
+    gk0 = vc.fresh_bytes("gkey0", vc.fresh_int("gkeylen", 0, 32))
+    vc.loop(MOD, "Bec2File.unpack_auth_blocks", 0, ghost_init=dict(ghave=0, gkey=gk0), ghost_next=nxt,
             havoc=dict(raw_rdr=lambda L: setpos(L.raw_rdr, vc.fresh_int("pos", 0, 1 << 20)),
                        common_session_key=hv_key,
                        auth_blocks=lambda L: AbsList("authblocks", vc.fresh_int("nblocks", 0, 1 << 20), lambda j: object()),
